@@ -8,7 +8,7 @@ LEVEL = "exploration"
 NEEDS = ("rust", "deps")
 EXHAUSTIVE = {"quick": False, "thorough": False}
 REQUIRED_MONITORS = ["py_kil_clauses", "rs_kil_clauses", "py_event_automaton", "rs_event_automaton", "fifo_suffix",
-                     "keyi_edge", "enqueue_contract"]
+                     "keyi_edge", "enqueue_contract", "fifo_stream_tail", "fifo_burst_overflows_in_one_op"]
 RULE = ("histories over {press k, release k, write KOL v, write KOH v, scan tick, read KIL, inject event, consume, (Rust) "
         "mirror FIFO to ISR with keyboard IRQs on/off} with adversarial keys (same row on different columns, same column, KOH "
         "columns 8-10, chatter, pressing an already pressed key, >8 events between consumes), both column polarities, "
@@ -164,6 +164,27 @@ def gen_history(r, keys, n, cfg, redundant=False, norelease=False):
     return ops
 
 
+def gen_burst(r, table, cfg):
+    """Many keys debounced on the SAME scan tick: more events in one tick than the queue holds (first a small group A,
+    then a group B of 9-14 keys, then - sometimes - everything released at once)."""
+    names = sorted(table)
+    r.shuffle(names)
+    na, nb = r.randrange(0, 6), r.randrange(9, 15)
+    a_keys, b_keys = names[:na], names[na:na + nb]
+    keys = {n: table[n] for n in a_keys + b_keys}
+    allk, allh = (0xFF, 0x0F) if cfg["active_high"] else (0x00, 0x00)
+    ops = [("kol", allk), ("koh", allh)]
+    ops += [("press", k) for k in a_keys] + [("tick", True)] * (cfg["press"] + r.randrange(0, 2))
+    if r.random() < 0.3:
+        ops.append(("consume",))
+    ops += [("press", k) for k in b_keys] + [("tick", True)] * (cfg["press"] + r.randrange(0, 3))
+    if r.random() < 0.6:
+        rel = list(b_keys) + list(a_keys)
+        r.shuffle(rel)
+        ops += [("release", k) for k in rel] + [("tick", True)] * (cfg["release"] + 1)
+    return ops, keys
+
+
 def check_common(res, model, cfg, truth, op, obs_kil, events, fifo, prev_fifo, case, i):
     """Clauses shared by both models. events: list of (code, release, repeat|None) observed for this op."""
     keys = truth.keys
@@ -308,13 +329,19 @@ def run_py(res, cfg, ops, keys):
         fifo = list(m.fifo_snapshot())
         if events:
             produced = True
-        # only-oldest-dropped: the part of the queue that is not new must be a suffix of the previous queue
+        # only-oldest-dropped: the queue must be the tail of (previous queue + this operation's events in the order they
+        # were generated) - also when one operation generates more events than the queue holds - and nothing is dropped
+        # while there is room (the Python ring holds FIFO_SIZE-1 entries)
         n_new = len(events)
-        kept = fifo[:len(fifo) - n_new] if n_new <= len(fifo) else []
-        if op[0] != "consume" and kept != prev_fifo[len(prev_fifo) - len(kept):]:
-            res.violation({"clause": "fifo_drops_other_than_oldest", "model": "py"}, case,
-                          {"step": i, "before": prev_fifo, "after": fifo, "new": n_new})
-            return False
+        stream = prev_fifo + [(c & 0x7F) | (0x80 if rel_ else 0) for (c, rel_, _rp) in events]
+        if op[0] != "consume":
+            res.monitor("fifo_stream_tail")
+            if n_new > 7:
+                res.monitor("fifo_burst_overflows_in_one_op")
+            if fifo != stream[len(stream) - len(fifo):] or len(fifo) < min(len(stream), 7):
+                res.violation({"clause": "fifo_drops_other_than_oldest", "model": "py"}, case,
+                              {"step": i, "before": prev_fifo, "after": fifo, "new": n_new, "stream": stream[-20:]})
+                return False
         sig, det = check_common(res, "py", cfg, truth, op, kil, events, fifo, prev_fifo, case, i)
         if sig:
             sig["op"] = op[0]
@@ -384,7 +411,7 @@ def run_rs_batch(res, jobs, keys):
                 truth.koh = op[1] & 0x0F
             elif op[0] == "tick":
                 truth.tick()
-                events = [(b & 0x7F, bool(b & 0x80), None) for b in fifo[len(fifo) - nev:]] if nev else []
+                events = [(b & 0x7F, bool(b & 0x80), None) for b in fifo[max(0, len(fifo) - nev):]] if nev else []
             elif op[0] == "kil":
                 truth.tick()
                 kil = o.get("rd")
@@ -405,14 +432,20 @@ def run_rs_batch(res, jobs, keys):
             if events:
                 produced = True
             if op[0] in ("tick", "inject"):
-                n_new = len(events)
+                n_new = nev if op[0] == "tick" else len(events)
                 kept = fifo[:len(fifo) - n_new] if n_new <= len(fifo) else []
-                if kept != prev_fifo[len(prev_fifo) - len(kept):]:
+                if n_new > 8:
+                    res.monitor("fifo_burst_overflows_in_one_op")
+                # nothing but the oldest entries go, and nothing goes while there is room (capacity 8)
+                if kept != prev_fifo[len(prev_fifo) - len(kept):] or len(fifo) != min(len(prev_fifo) + n_new, 8):
                     res.violation({"clause": "fifo_drops_other_than_oldest", "model": "rs"}, case,
                                   {"step": i, "before": prev_fifo, "after": fifo, "new": n_new})
                     ok = False
                     break
-            if op[0] == "kil":
+            overflowed = op[0] == "tick" and nev > len(fifo)
+            if overflowed:
+                events = []     # some of this tick's events were pushed out again within the tick: not observable from the queue
+            if op[0] == "kil" or overflowed:
                 # automaton cannot see events consumed by the read: treat every key as re-synchronised from 'deb'
                 deb = set(o.get("deb", []))
                 for k, (c, r_, code) in keys.items():
@@ -519,6 +552,10 @@ def run_shard(spec) -> Result:
                 cfg2 = dict(cfg, via_setter=True)
                 ops2 = gen_history(r, keys, r.randrange(30, 90), cfg2, redundant=False, norelease=r.random() < 0.45)
                 jobs.append((dict(cfg2, redundant=False, rust_only=True), ops2, keys))
+        for _ in range(max(4, n // 12)):
+            cfg = settings(r)
+            ops, keys = gen_burst(r, table, cfg)
+            jobs.append((dict(cfg, redundant=False, burst=True), ops, keys))
     else:
         import itertools
         names = ["KEY_Q", "KEY_W", "KEY_A"]   # Q:(0,1) W:(1,0) A:(0,3): two share a column
